@@ -7,6 +7,7 @@ import (
 	"context"
 	"errors"
 	"fmt"
+	"io"
 	"strings"
 	"time"
 
@@ -44,7 +45,25 @@ type scenario struct {
 	// -100, -101: a partial / stale answer); 2: a typed-nil page inside a non-nil interface. The error decides: a
 	// failed fetch is a failed fetch whatever came with it.
 	FailWithPage int `json:"fail_with_page,omitempty"`
+	// FailErr: the error value failing page fetches (first, next, future) return — index into fetchErrs: an opaque error
+	// or one of the library's own kinds (not found, empty, cancelled, timeout, …). A failed fetch is a failed fetch
+	// whatever the kind of its error: "an empty collection" is a first page without items, not an error.
+	FailErr int `json:"fail_err,omitempty"`
 }
+
+var fetchErrs = []error{
+	errors.New("harness: page fetch failure"),
+	commonerrors.ErrNotFound,
+	commonerrors.ErrEmpty,
+	fmt.Errorf("%w: no such page", commonerrors.ErrNotFound),
+	commonerrors.New(commonerrors.ErrEmpty, "nothing there"),
+	io.EOF,
+	commonerrors.ErrCancelled,
+	commonerrors.ErrTimeout,
+	commonerrors.ErrUnexpected,
+}
+
+func (w *world) fetchErr() error { return fetchErrs[w.failErr%len(fetchErrs)] }
 
 type world struct {
 	futures    []*pg
@@ -54,6 +73,7 @@ type world struct {
 	stoppedBy  int    // number of fetches that stopped the paginator
 	nilItems   bool   // see scenario.NilItems
 	failWith   int    // see scenario.FailWithPage
+	failErr    int    // see scenario.FailErr
 	lastNil    int64  // the number of the item most recently handed out as nil
 }
 
@@ -97,7 +117,7 @@ func (p *pg) fetchNext() (*pg, error) {
 		return nil, errors.New("harness: no next page")
 	}
 	if p.next.spec.Kind == kFetchFail {
-		return p.w.failedPage(), errors.New("harness: fetch failure")
+		return p.w.failedPage(), p.w.fetchErr()
 	}
 	if p.next.spec.StopOnFetch && p.w.stop != nil {
 		p.w.stop()
@@ -144,7 +164,7 @@ func (p *pg) fetchFuture() (*pg, error) {
 		return nil, nil
 	}
 	if f.spec.Kind == kFetchFail {
-		return p.w.failedPage(), errors.New("harness: future fetch failure")
+		return p.w.failedPage(), p.w.fetchErr()
 	}
 	p.w.nextFuture++
 	return f, nil
@@ -197,7 +217,7 @@ func errKind(err error) string {
 // execute runs the scenario on the real paginator; outs has one entry per op.
 func execute(sc scenario) (ctorOK bool, ctorNilNil bool, outs []string, stopAt int) {
 	stopAt = -1
-	w := &world{nilItems: sc.NilItems, failWith: sc.FailWithPage}
+	w := &world{nilItems: sc.NilItems, failWith: sc.FailWithPage, failErr: sc.FailErr}
 	first := chain(w, sc.Pages)
 	for _, f := range sc.Futures {
 		if len(f) == 1 && f[0].Kind == kNilPage {
@@ -214,7 +234,7 @@ func execute(sc scenario) (ctorOK bool, ctorNilNil bool, outs []string, stopAt i
 	}
 	fetchFirstErr := func() error {
 		if first == nil || first.spec.Kind == kFetchFail {
-			return errors.New("harness: first page fetch failure")
+			return w.fetchErr()
 		}
 		return nil
 	}
@@ -702,6 +722,9 @@ type timedScenario struct {
 	TMs       int64  `json:"grace_ms"`
 	IdleMs    int64  `json:"idle_ms"`  // DryUp instant
 	AvailMs   int64  `json:"avail_ms"` // instant at which the future page with the item appears
+	// RedryMs > 0: DryUp is called again every RedryMs after the first call (telling the stream twice that it is drying
+	// up tells it nothing new: the grace period counts from the last LIVE poll, not from the last DryUp)
+	RedryMs int64 `json:"redry_ms,omitempty"`
 }
 
 type tworld struct {
@@ -763,9 +786,19 @@ func executeTimed(ts timedScenario) []string {
 		}
 		p, dry = pp, pp.DryUp
 	}
+	redryDone := make(chan struct{})
+	defer close(redryDone)
 	go func() {
 		time.Sleep(time.Until(w.start.Add(time.Duration(ts.IdleMs) * time.Millisecond)))
 		_ = dry()
+		for ts.RedryMs > 0 {
+			select {
+			case <-redryDone:
+				return
+			case <-time.After(time.Duration(ts.RedryMs) * time.Millisecond):
+				_ = dry()
+			}
+		}
 	}()
 	var outs []string
 	outs = append(outs, fmt.Sprintf("b:%v", p.HasNext()))
@@ -820,7 +853,7 @@ type timedBuf struct {
 
 func (b *timedBuf) exec(ts timedScenario) {
 	expected := []string{"b:true", "i:7", "b:false"}
-	if ts.Name == "expired" {
+	if strings.HasPrefix(ts.Name, "expired") {
 		expected = []string{"b:false", "e:notfound", "b:false"}
 	}
 	for attempt := 0; attempt < 3; attempt++ { // a deviation from the schedule's nominal outcome must be confirmed 3 times out of 3
@@ -840,6 +873,9 @@ func (b *timedBuf) record(r *h.Run, ts timedScenario, emit bool) {
 	if b.deviations == 3 && ts.Name == "within" && (len(outs) < 2 || outs[1] != "i:7") {
 		r.Fail("stream-grace-cut-short:"+ts.Paginator, fmt.Sprintf("a future page's item available %d ms after DryUp (grace period %d ms, stream polled live until DryUp) was not yielded: %v", ts.AvailMs-ts.IdleMs, ts.TMs, outs), ts)
 	}
+	if b.deviations == 3 && strings.HasPrefix(ts.Name, "expired") && len(outs) > 0 && outs[0] == "b:true" {
+		r.Fail("stream-grace-never-ends:"+ts.Paginator, fmt.Sprintf("the stream was told at %d ms that it is drying up (again every %d ms), grace period %d ms, nothing published until %d ms: HasNext must have given up long before, but it waited for that item: %v", ts.IdleMs, ts.RedryMs, ts.TMs, ts.AvailMs, outs), ts)
+	}
 	if emit {
 		r.Case(coqTimedCase(ts, outs), ts)
 	}
@@ -857,6 +893,7 @@ func timedScenarios() []timedScenario {
 	for _, k := range []string{"static-stream", "dynamic-stream"} {
 		l = append(l, timedScenario{Paginator: k, Name: "within", TMs: 600, IdleMs: 900, AvailMs: 1000})
 		l = append(l, timedScenario{Paginator: k, Name: "expired", TMs: 200, IdleMs: 300, AvailMs: 1300})
+		l = append(l, timedScenario{Paginator: k, Name: "expired-redry", TMs: 200, IdleMs: 300, AvailMs: 1500, RedryMs: 40})
 	}
 	return l
 }
@@ -920,6 +957,17 @@ func main() {
 			Ops: []string{"G", "H", "H", "G", "G", "G", "H"}}, true)
 	}
 	n := r.N(600, 20000)
+	// the first page cannot be fetched: the constructor fails whatever the kind of the fetcher's error
+	for _, k := range kinds {
+		for e := range fetchErrs {
+			for _, kind := range []int{kFetchFail, kIterFail} {
+				if kind == kIterFail && e > 0 {
+					continue
+				}
+				runScenario(r, scenario{Paginator: k, FailErr: e, Pages: []pageSpec{{Kind: kind}, {Items: []int64{1}}}, Ops: []string{"H", "G", "H"}}, true)
+			}
+		}
+	}
 	// a failing next-page / future-page fetch that hands back a page value next to its error (junk page, typed nil)
 	for _, k := range kinds {
 		for fw := 1; fw <= 2; fw++ {
@@ -984,6 +1032,7 @@ func main() {
 		sc.NilItems = r.Rng.Intn(4) == 0
 		if failures {
 			sc.FailWithPage = r.Rng.Intn(3)
+			sc.FailErr = r.Rng.Intn(len(fetchErrs))
 			r.Count(fmt.Sprintf("failed-fetch-returns=%d", sc.FailWithPage))
 		}
 		if sc.NilItems {
